@@ -79,6 +79,9 @@ type evalIn struct {
 	StartMs int `json:"startMs"`
 	EndMs   int `json:"endMs"`
 	StepMs  int `json:"stepMs"`
+	// additional nanoseconds (0..499999) of start and end: evaluation instants between two milliseconds
+	StartNs int `json:"startNs"`
+	EndNs   int `json:"endNs"`
 }
 
 type metricIn struct {
@@ -222,10 +225,10 @@ func (famMetric) Exec(scn int, raw json.RawMessage, t *Trace, opt map[string]str
 	for _, ev := range in.Evals {
 		for rep := 0; rep < reps; rep++ {
 			run++
-			t.Ev(scn, "Run", F{"run": run, "start": ev.Start, "end": ev.End, "step": ev.Step, "startMs": ev.StartMs, "endMs": ev.EndMs, "stepMs": ev.StepMs, "txt": q})
+			t.Ev(scn, "Run", F{"run": run, "start": ev.Start, "end": ev.End, "step": ev.Step, "startMs": ev.StartMs, "endMs": ev.EndMs, "stepMs": ev.StepMs, "startNs": ev.StartNs, "endNs": ev.EndNs, "txt": q})
 			store := &MemStore{t: nil, scn: scn, recs: in.Recs, caps: CapsIn{Label: allOps, Line: []string{}}}
 			eng := logqlengine.NewEngine(store, logqlengine.Options{})
-			p := logqlengine.EvalParams{Start: tsOf(time.Unix(int64(ev.Start), int64(ev.StartMs)*1e6)), End: tsOf(time.Unix(int64(ev.End), int64(ev.EndMs)*1e6)),
+			p := logqlengine.EvalParams{Start: tsOf(time.Unix(int64(ev.Start), int64(ev.StartMs)*1e6+int64(ev.StartNs))), End: tsOf(time.Unix(int64(ev.End), int64(ev.EndMs)*1e6+int64(ev.EndNs))),
 				Step: time.Duration(ev.Step)*time.Second + time.Duration(ev.StepMs)*time.Millisecond, Limit: -1}
 			r := evalWithWatchdog(eng, q, p, 20*time.Second)
 			if r.Err == nil && r.Panic == nil && !r.Hang {
@@ -257,7 +260,7 @@ func genMetricRecs(r *rand.Rand, n int, span int, subsec bool) []MemRec {
 		t += r.Intn(span*2/(n+1) + 2)
 		ns := 0
 		if subsec && r.Intn(4) == 0 {
-			ns = []int{1, 999999999, 500000000}[r.Intn(3)]
+			ns = []int{1, 999999999, 500000000, 250000, 249999, 250001, 0}[r.Intn(7)]
 		}
 		rec := MemRec{ID: i + 1, TS: []int{mBase + t, ns}, Line: B(pick(r, []string{"m", "m", "mm", "m m"})), Doc: [][2][]int{}}
 		rec.Attrs = [][2][]int{{B("app"), B(pick(r, []string{"a", "b", "ab"}))}}
@@ -351,6 +354,14 @@ func genEvals(r *rand.Rand, span int) []evalIn {
 		sm := []int{0, 0, 100, 900, 500}[r.Intn(5)]
 		endMs := sm + kk*stepMs
 		evs = append(evs, evalIn{Start: start, StartMs: sm, End: start + endMs/1000, EndMs: endMs % 1000, Step: 0, StepMs: stepMs})
+	}
+	if r.Intn(3) == 0 {
+		// evaluation instants that are not whole milliseconds (records carry such timestamps: the window edges are exact)
+		ns := []int{1, 250000, 499999, 2}[r.Intn(4)]
+		start := mBase + r.Intn(span/2+1)
+		step := 1 + r.Intn(3)
+		evs = append(evs, evalIn{Start: start, StartNs: ns, End: start + step*(1+r.Intn(4)), EndNs: ns, Step: step})
+		evs = append(evs, evalIn{Start: start + step, StartNs: ns, End: start + step, EndNs: ns, Step: 0})
 	}
 	// an instant evaluation somewhere on the first grid
 	k := r.Intn((evs[0].End-evs[0].Start)/evs[0].Step + 1)
